@@ -9,6 +9,7 @@ _get_ident = core._get_ident
 
 EOF = object()
 RESET = object()
+RESET1 = object()     # like RESET, but the socket-like object reports it as OSError with a single argument
 
 
 class NetKnobs:
@@ -37,6 +38,7 @@ class SimSocket:
         self.rxbuf = bytearray()
         self.rx_eof = False
         self.rx_reset = False
+        self.reset_one_arg = False
         self.rxq = []
         self.closed = False
         self._closed = False
@@ -64,6 +66,11 @@ class SimSocket:
     def fileno(self):
         raise OSError("simulated socket has no descriptor")
 
+    def _reset_exc(self):
+        if self.reset_one_arg:
+            return _socket.error("connection broken")
+        return _socket.error(errno.ECONNRESET, "Connection reset by peer")
+
     def _timeout_exc(self):
         if self.knobs.eagain:
             return _socket.error(errno.EAGAIN, "Resource temporarily unavailable")
@@ -79,7 +86,7 @@ class SimSocket:
         if self.closed:
             raise _socket.error(errno.EBADF, "Bad file descriptor")
         if self.rx_reset:
-            raise _socket.error(errno.ECONNRESET, "Connection reset by peer")
+            raise self._reset_exc()
         if self.tx_shutdown:
             raise _socket.error(errno.EPIPE, "Broken pipe")
         k = self.knobs
@@ -133,7 +140,7 @@ class SimSocket:
                 self.bytes_rx += avail
                 return out
             if self.rx_reset:
-                raise _socket.error(errno.ECONNRESET, "Connection reset by peer")
+                raise self._reset_exc()
             if self.rx_eof:
                 return b""
             if self.timeout is not None and self.timeout <= 0:
@@ -175,8 +182,9 @@ class SimSocket:
             return
         if item is EOF:
             self.rx_eof = True
-        elif item is RESET:
+        elif item is RESET or item is RESET1:
             self.rx_reset = True
+            self.reset_one_arg = item is RESET1
             del self.rxbuf[:]
         else:
             self.rxbuf += item
@@ -213,7 +221,7 @@ class Link:
     def _transmit(self, src, item):
         sim = self.sim
         d = src.side
-        if item is not EOF and item is not RESET:
+        if item is not EOF and item is not RESET and item is not RESET1:
             if self.record_wire:
                 self.wire[d].append((sim.seq, sim.now, item))
             if self.on_segment is not None:
@@ -225,7 +233,7 @@ class Link:
         else:
             items = (item,)
         for it in items:
-            if (self.p_split and it is not EOF and it is not RESET and len(it) > 1
+            if (self.p_split and it is not EOF and it is not RESET and it is not RESET1 and len(it) > 1
                     and sim.choose_bool(self.p_split)):
                 k = 1 + sim.choose(min(len(it) - 1, 40))
                 sim.fault("segment_split_with_delay")
@@ -265,7 +273,7 @@ class Link:
     def cut(self, d=None, kind="eof"):
         """Connection loss seen by the receiver(s) of direction d (None: both)."""
         for dd in ((0, 1) if d is None else (d,)):
-            self._schedule(dd, EOF if kind == "eof" else RESET)
+            self._schedule(dd, EOF if kind == "eof" else RESET1 if kind == "reset1" else RESET)
         self.sim.fault("link_" + kind)
 
     def quiet(self):
